@@ -711,7 +711,7 @@ pub fn run(c: &mut Collector, a: &Args) {
     // polling far past the end (8- and 16-bit cursor wrap)
     {
         c.journal("long polls");
-        let polls = if a.small { 700 } else { 70_000 };
+        let polls = if a.small { 300 } else { 70_000 };
         match a.shard % 5 {
             0 => long_poll(c, "Color::all", &Color::all, &colors, polls),
             1 => long_poll(c, "Side::all", &Side::all, &sides, polls),
